@@ -81,6 +81,15 @@ class Backend:
             self.o.release_waiters(self.ids[op[1]])
         elif k == "S":
             inject_status(self.app, self.ids[op[1]], self.S(op[2]), None, 0)
+        elif k == "X":
+            # a final-status REPORT THAT IS REFUSED (a stale worker reporting SUCCESS for an invocation it does not hold / that is
+            # not running): nothing changes, in particular nobody stops waiting for the invocation
+            try:
+                self.o.set_invocation_status(self.ids[op[1]], self.S.SUCCESS, rctx("rStale"))
+                raise AssertionError(f"a SUCCESS report by a stranger was accepted for {op[1]}")
+            except (KeyError, Exception) as e:  # noqa: BLE001
+                if isinstance(e, AssertionError):
+                    raise
         elif k == "F":
             # the lifecycle way: RUNNING (owned by rA) -> final status through set_invocation_status
             inject_status(self.app, self.ids[op[1]], self.S.RUNNING, "rA", 0)
@@ -103,6 +112,8 @@ def model_lines(op: tuple) -> str:
         return f"bc.status {tok(op[1])} {op[2]}"
     if k == "F":
         return f"bc.final {tok(op[1])} {op[2]}"
+    if k == "X":
+        return ""           # a refused report is no operation of the model
     raise ValueError(op)
 
 
@@ -125,6 +136,8 @@ class RefGraph:
             self.edges = {e for e in self.edges if e[1] != op[1]}  # nothing waits on a finished invocation
         elif k == "S":
             self.status[op[1]] = op[2]
+        elif k == "X":
+            pass
         else:
             raise ValueError("the reference graph is only defined for lifecycle histories")
 
@@ -184,6 +197,7 @@ def lifecycle_alphabet(names: list[str], small: bool) -> list[tuple]:
         ops.append(("S", x, "pending"))
         if not small:
             ops.append(("S", x, "retry"))
+            ops.append(("X", x))
     return ops
 
 
@@ -191,7 +205,7 @@ def legal_lifecycle(h: list[tuple]) -> bool:
     """release only through a final status, and a final status is never left"""
     fin: set[str] = set()
     for op in h:
-        if op[0] in ("S", "F") and op[1] in fin:
+        if op[0] in ("S", "F", "X") and op[1] in fin:
             return False
         if op[0] == "F":
             fin.add(op[1])
@@ -221,7 +235,10 @@ def random_history(ctx: Ctx, names: list[str], n: int, raw: bool) -> list[tuple]
             alive = [x for x in names if x not in fin]
             if not alive:
                 continue
-            h.append(("S", ctx.rng.choice(alive), ctx.rng.choice(NONFINAL)))
+            if ctx.rng.random() < 0.2:
+                h.append(("X", ctx.rng.choice(alive)))
+            else:
+                h.append(("S", ctx.rng.choice(alive), ctx.rng.choice(NONFINAL)))
         else:
             h.append(("R", ctx.rng.choice(names)))
     return h
@@ -241,7 +258,8 @@ def run_histories(ctx: Ctx, drv: LeanDriver, backs: dict[str, Backend], names: l
         for k in kinds:
             backs[k].reset()
         for oi, op in enumerate(h):
-            lines.append(model_lines(op))
+            if model_lines(op):
+                lines.append(model_lines(op))
             for k in kinds:
                 backs[k].apply(op)
             if ref:
